@@ -494,6 +494,13 @@ def enum_unit(name, src, std='17', kind='asan', extra=None, defines=None, compil
     return D.Unit(name, src, d, std=std, kind=kind, engine=False, extra=extra, compiler=compiler)
 
 
+def noexcept_units():
+    src = 'targets/noexcept_c17.cpp'
+    return [enum_unit('noexcept_c17', src), enum_unit('noexcept_c17_cxx11', src, std='11', defines={'VF_TNAME': '"noexcept_c17_cxx11"'}),
+            enum_unit('noexcept_c17_cxx20', src, std='20', defines={'VF_TNAME': '"noexcept_c17_cxx20"'}),
+            enum_unit('noexcept_c17_clang', src, compiler='clang++', defines={'VF_TNAME': '"noexcept_c17_clang"'})]
+
+
 def static_units():
     """the trait tables of C14 / C17: g++ 12 and, as a second opinion on every static_assert-like fact, clang++ 14"""
     return [enum_unit('static_c14', 'targets/static_c14.cpp'), enum_unit('alloc_c06', 'targets/alloc_c06.cpp'),
@@ -618,8 +625,15 @@ def check_C17(tier, seed, t0, only=None):
     part2 = enum_part('C17', 'comparator_and_pair_trait_table', static_units(), seed, tier,
                       'trait table over element types x comparator types (see C14 static part): each container typedef is the conjunction of its parts')
     part2.coverage['exhaustive'] = False
-    return finish('C17', tier, seed, 'exploration', [part, part2], C17_RULE,
-                  ['the evaluator is g++ 12 on x86-64 (sizeof(void*) == 8); the converse of the noexcept implications is not demanded'], t0)
+    part3 = enum_part('C17', 'noexcept_runs_no_throwing_element_operation', noexcept_units(), seed, tier,
+                      'dynamic side of the noexcept clauses: 16 element types (TR-declared or not x move constructor / move assignment / ADL swap noexcept or '
+                      'potentially throwing) x {FixedCapacityVector<E,4>, <E,1>, SmallVector<E,3>, <E,1>, vector<E>} x every size pair (inline and heap) x '
+                      '{a.swap(b), ADL swap, move construction, move assignment}; oracle: an operation the container declares noexcept executes zero element '
+                      'operations that the element declares potentially throwing (and the contents are exchanged / moved); non-trivial = the element has a '
+                      'throwing operation or declares trivially_relocatable; built as C++11, C++17 and C++20 with g++ and C++17 with clang++')
+    return finish('C17', tier, seed, 'exploration', [part, part2, part3], C17_RULE,
+                  ['the evaluators are g++ 12 and clang++ 14 on x86-64 (sizeof(void*) == 8); the converse of the noexcept implications is demanded only where a '
+                   'noexcept operation would otherwise run (static matrix) or did run (dynamic grid) a potentially throwing element operation'], t0)
 
 
 C16_RULE = ('tapes generated (rapidcheck, seed-derived) by the C01/C03/C04 generators for 10 vector (odd element sizes 3 and 7 included), 3 FlatSet and 2 SmallSet configurations, in two corpora: '
@@ -700,7 +714,9 @@ def race_unit(std='17'):
     name = 'race_c20' if std == '17' else 'race_c20_cxx%s' % std
     d = dict(NONSTD)
     d['VF_RACE_NAME'] = '"%s"' % name
-    return D.Unit(name, 'targets/race_c20.cpp', d, std=std, kind='tsan', engine=True)
+    # -fno-builtin: at -O1 g++ expands memcpy / memmove inline without ThreadSanitizer instrumentation and a race on bytes copied that way
+    # goes unreported (seen with seeded change C20e-1); as library calls they go through the interceptors
+    return D.Unit(name, 'targets/race_c20.cpp', d, std=std, kind='tsan', engine=True, extra=['-fno-builtin'])
 
 
 def check_C20(tier, seed, t0):
@@ -722,7 +738,7 @@ def all_units():
         us += [vec_unit(n, s) for n in C.VEC_MULTISTD]
     us += [fs_unit(n) for n, _ in C.FS_CONFIGS]
     us += [fault_unit(n) for n, _ in FAULT_CONFIGS] + [fault_unit(n, sd) for n, sd in FAULT_MULTISTD]
-    us += c15_units() + [race_unit(), race_unit('20')] + c13_units() + c13_std_units() + bfs_units() + [enum_unit('exh_c10', 'targets/exh_c10.cpp'), enum_unit('exh_c08', 'targets/exh_c08.cpp'), enum_unit('static_c14', 'targets/static_c14.cpp'), enum_unit('alloc_c06', 'targets/alloc_c06.cpp')] + static_units()[2:]
+    us += c15_units() + [race_unit(), race_unit('20')] + c13_units() + c13_std_units() + bfs_units() + [enum_unit('exh_c10', 'targets/exh_c10.cpp'), enum_unit('exh_c08', 'targets/exh_c08.cpp'), enum_unit('static_c14', 'targets/static_c14.cpp'), enum_unit('alloc_c06', 'targets/alloc_c06.cpp')] + static_units()[2:] + noexcept_units()
     from . import c16
     us += [c16.unit(cfg, b) for cfg in c16.VEC + c16.FS + c16.SS for b in c16.QUICK_BUILDS if not (cfg in c16.SS and b[0] in ('11', '14'))]
     us += [enum_unit('exh_c12', 'targets/exh_c12.cpp'), enum_unit('growth_c18', 'targets/growth_c18.cpp', kind='plain'),
